@@ -119,6 +119,8 @@ def _nested_target(attrs, key):
             return inner
     if isinstance(v, tuple) and v and isinstance(v[0], list):
         return v[0]
+    if type(v).__name__ == "Box":
+        return v.items
     return None
 
 
